@@ -114,6 +114,7 @@ FAM_TEXT = {
     (2, 128): 'ipv6 mpls-vpn',
     (2, 133): 'ipv6 flow',
     (2, 134): 'ipv6 flow-vpn',
+    (25, 65): 'l2vpn vpls',
 }
 
 
